@@ -370,6 +370,8 @@ class Translator:
                     return sp.Function("attr_" + nm.name.strip("'"))(A(0))
                 # getattr(x, "name") is the attribute x.name: translate it as that attribute is translated here
                 return self.tr(ast.copy_location(ast.Attribute(value=args[0], attr=nm.name.strip("'"), ctx=ast.Load()), n))
+        if fn == "slice" and isinstance(n.func, ast.Name) and 1 <= len(args) <= 3 and any(isinstance(a, ast.Starred) for a in args):
+            return sp.Function("slice")(*[self.tr(a) for a in args])        # slice(*bounds): the bounds are spread where their value is known
         if fn == "slice" and isinstance(n.func, ast.Name) and 1 <= len(args) <= 3:
             vals = [self.tr(a) for a in args]
             NONE = sp.Symbol("None")
